@@ -1,4 +1,5 @@
 import Walrus.Gc
+import Walrus.BodiesOK
 import Walrus.Driver.ModuleD
 
 /-! `gc <module text>` → predicted output module of parse; gc::run; emit (or `panic`);
@@ -12,6 +13,10 @@ def handleGc (ws : List String) : String :=
   | some g =>
     if !gcWF g then "reference-out-of-range" else
     if !usedFinished g then "worklist-fuel-exhausted" else
+    -- the hypotheses of `C02.after_gc_the_whole_module_emits_checked`, evaluated on this case
+    if m.code.length != m.funcs.length then "code-and-function-sections-differ" else
+    if !bodiesOK m g then "body-not-well-nested" else
+    if !sectionsOK m then "section-not-well-formed" else
     match gcRoundTrip m with
     | some o => showModule o
     | none => "panic"
